@@ -118,7 +118,31 @@ struct Exec {
     Sched::Outcome outcome;
 };
 
+/// signatures listed as known findings for this run (the driver's --known argument): the
+/// enumerators keep exploring behind executions that fail with one of them
+inline const std::set<std::string> &knownSignatures()
+{
+    static const std::set<std::string> known = [] {
+        std::set<std::string> k;
+        std::ifstream f("/proc/self/cmdline", std::ios::binary);
+        std::vector<std::string> args;
+        std::string cur;
+        char c;
+        while (f.get(c)) {
+            if (c == '\0') { args.push_back(cur); cur.clear(); }
+            else cur += c;
+        }
+        if (!cur.empty()) args.push_back(cur);
+        for (size_t i = 0; i + 1 < args.size(); ++i)
+            if (args[i] == "--known") k = vp::splitCsv(args[i + 1]);
+        return k;
+    }();
+    return known;
+}
+
 struct Explored {
+    uint64_t knownFailures = 0; ///< executions that failed with a known-finding signature (exploration continued)
+    std::string knownSig, knownDetail;
     uint64_t executions = 0;
     uint64_t inconclusive = 0;
     bool complete = false; ///< the whole bounded schedule space was visited
@@ -146,7 +170,12 @@ Explored exploreAll(RunOne runOne, unsigned preemptionBound, unsigned spuriousBo
             ex.diverged = true;
             return ex;
         }
-        if (!e.ok) {
+        if (!e.ok && knownSignatures().count(e.sig)) {
+            if (!ex.knownFailures++) {
+                ex.knownSig = e.sig;
+                ex.knownDetail = e.detail + " [dfs schedule: " + dfs.describe() + "; chosen processes: " + e.outcome.trace + "]";
+            }
+        } else if (!e.ok) {
             ex.failed = true;
             ex.sig = e.sig;
             ex.detail = e.detail + " [dfs schedule: " + dfs.describe() + "; chosen processes: " + e.outcome.trace + "]";
